@@ -1,8 +1,81 @@
 N = {"quick": 420, "thorough": 10500}
-RULE = "tbd"
-ASSUMPTIONS = []
-SOURCE_FILES = []
+EXHAUSTIVE = {"quick": False, "thorough": False}
+RULE = ("cases cycle through all 21 (ExchangeId, SubKind) arms of DynamicStreams::init (20 cases per pair quick, 500 thorough). Each case: "
+        "1-4 (thorough 1-6) instruments over a 22-name pool with mixed case, digits and shared prefixes (btc/BTC/Btc/bt/b, cusd/usd/usdc, "
+        "1inch, a1/A1 ...) so that case variants and concatenation collisions (bt+cusd vs btc+usd) occur, instrument kinds as the builder "
+        "accepts for the pair (Okx: spot/perpetual/future/option; Gateio futures/options dated, incl. expiries whose ISO week-year differs from "
+        "the calendar year), then 2-6 (thorough 2-10) messages: 55 % for a subscribed instrument's venue symbol, 15 % for an unsubscribed "
+        "instrument, 30 % a mutation of a subscribed symbol (lower-cased, suffix added, last char dropped, separators removed/swapped, first "
+        "char changed); multi-trade batches of 0-3 trades, Bitfinex heartbeats and channel ids confirmed in shuffled order (some unconfirmed, "
+        "some for unsubscribed symbols). Real WebSocketSubMapper::map, real serde types on synthesised JSON, real Transformer::transform. "
+        "A case is distinct by the SHA-1 of its op lines and non-trivial when the implementation's trace shows at least two different "
+        "observation blocks")
+ASSUMPTIONS = [
+    "asset names are ASCII (the model maps case with ASCII rules; Rust's to_lowercase/to_uppercase are Unicode)",
+    "pairwise distinct subscription ids / venue symbols among the subscribed instruments (two instruments the venue itself cannot tell "
+    "apart, e.g. bt+cusd and btc+usd on a concatenating venue, or the same pair in two spellings, are outside the property: the map keeps the last one; "
+    "the spec driver does not constrain the key for them)",
+    "instrument kinds are those the dynamic builder accepts for the pair (exchange_supports_instrument_kind_sub_kind); integer option strikes",
+    "Bitmex / Gateio futures-perpetual-option batches carry the symbol per trade; all trades of one generated batch name the same symbol "
+    "(the code identifies the batch by its first trade); an empty batch names no market and yields nothing",
+    "Bitfinex: the channel-id re-keying of BitfinexWebSocketSubValidator::validate (needs a live socket) is applied to the instrument map directly "
+    "from a deserialised `subscribed` event; the venue confirms each symbol at most once and under pairwise distinct channel ids",
+    "Binance L2: each update is given to a freshly initialised transformer (snapshot sequence 100) as a valid first update, with at most one "
+    "level per side; sequencing and book sorting are C06/C05",
+    "prices/amounts are multiples of 1/8 (exact in f64 and Decimal; f64 parsing is not modelled); Kraken times are multiples of 125 ms "
+    "(its seconds-as-f64 timestamps are then exact); the sign of PublicTrade.amount is not constrained by the spec (see LEVEL_NOTE)",
+]
+SOURCE_FILES = [
+    "barter-data/src/subscriber/mapper.rs", "barter-data/src/transformer/stateless.rs", "barter-data/src/exchange/subscription.rs",
+    "barter-data/src/subscription/mod.rs", "barter-data/src/streams/builder/dynamic/mod.rs",
+    "barter-data/src/exchange/binance/trade.rs", "barter-data/src/exchange/binance/book/l1.rs", "barter-data/src/exchange/binance/book/l2.rs",
+    "barter-data/src/exchange/binance/market.rs", "barter-data/src/exchange/binance/channel.rs",
+    "barter-data/src/exchange/binance/futures/liquidation.rs", "barter-data/src/exchange/binance/spot/l2.rs",
+    "barter-data/src/exchange/binance/futures/l2.rs",
+    "barter-data/src/exchange/okx/trade.rs", "barter-data/src/exchange/okx/market.rs",
+    "barter-data/src/exchange/kraken/trade.rs", "barter-data/src/exchange/kraken/book/l1.rs", "barter-data/src/exchange/kraken/market.rs",
+    "barter-data/src/exchange/coinbase/trade.rs", "barter-data/src/exchange/coinbase/market.rs",
+    "barter-data/src/exchange/bybit/trade.rs", "barter-data/src/exchange/bybit/message.rs", "barter-data/src/exchange/bybit/market.rs",
+    "barter-data/src/exchange/gateio/spot/trade.rs", "barter-data/src/exchange/gateio/perpetual/trade.rs",
+    "barter-data/src/exchange/gateio/market.rs", "barter-data/src/exchange/gateio/channel.rs",
+    "barter-data/src/exchange/bitmex/trade.rs", "barter-data/src/exchange/bitmex/message.rs", "barter-data/src/exchange/bitmex/market.rs",
+    "barter-data/src/exchange/bitfinex/validator.rs", "barter-data/src/exchange/bitfinex/message.rs",
+    "barter-data/src/exchange/bitfinex/trade.rs", "barter-data/src/exchange/bitfinex/market.rs",
+    "barter-instrument/src/asset/name.rs",
+]
+
+
+def signature(ops, k, key, impl_line, spec_line):
+    """violated clause + connector/kind of the case (the `sub` op) + class of the message"""
+    sub = next((o.split() for o in ops if o.startswith("sub ")), ["sub", "?", "?"])
+    exch, kind = sub[1], sub[2]
+    clause = {"nev": "count", "ev": "attribution", "err": "rejection", "trade": "trade-fields", "l1": "l1-fields",
+              "l2": "l2-fields", "liq": "liquidation-fields"}.get(key, key)
+    cls = "subscribed-market" if spec_line.startswith(("ev", "nev", "trade", "l1", "l2", "liq")) and not spec_line.startswith("nev 1") else "message"
+    if "unidentifiable" in spec_line:
+        cls = "unsubscribed-market"
+    elif "unidentifiable" in impl_line or impl_line.startswith("nev 1"):
+        cls = "subscribed-market-rejected"
+    return f"clause={clause} connector={exch} kind={kind} input={cls}"
+
+
 CLAIM = True
-TECHNIQUE = "tbd"
-LEVEL_TEXT = "tbd"
-LEVEL_NOTE = "tbd"
+TECHNIQUE = ("Lean 4: per-connector id algebra (payload-side id = subscribe-side id, market = venue symbol, '|' decoding) proved for the whole "
+             "21-pair table, hash-map-insert lemmas by induction over the subscription list, refinement of Transformer::transform to a venue-symbol "
+             "attribution spec; correspondence of the model with the real mapper / serde types / transformers")
+LEVEL_TEXT = ("Proof. Lean theorems (lean/BarterModel/Props/C13.lean) over the executable model the driver runs, for every one of the 21 (connector, kind) pairs, "
+              "every list of subscribed instruments (unbounded length, any ASCII spelling, any kind/expiry/strike) and every message: market_is_venue_symbol "
+              "(subscribe-side market = venue symbol; no hypothesis on the current tree), channel_is_venue_channel, payload_id_agrees, attributed (message for "
+              "the k-th instrument's market => exactly the events of key k), events_key_exchange + trade/l1/l2/liq_fields_as_stated (key, exchange id, price, "
+              "quantity, side, time copied), rejected + rejected_never_event (unsubscribed (channel, market) => Unidentifiable(id), never an event), "
+              "sep_injective(_channels), refines_spec (transform = the property's attribution rule stated on venue symbols only), and for Bitfinex "
+              "bitfinex_attributed / bitfinex_rejected / bitfinex_heartbeat / bitfinex_refines_spec over arbitrary confirmation sequences. All full strength; "
+              "hypotheses: pairwise distinct ids / venue symbols, builder-accepted instrument kinds (refinement only), non-empty batch where the id is read off "
+              "the first trade, '|' not in a payload-supplied channel, Bitfinex confirmations with distinct symbols and distinct channel ids.")
+LEVEL_NOTE = ("Trusted: Lean kernel; axioms propext/Classical.choice/Quot.sound only; the hand-written model (tied by sampled correspondence: 420 quick / 10.5k "
+              "thorough cases over all 21 pairs through the real WebSocketSubMapper::map, the real serde types and the real Transformer::transform); the venue "
+              "table of the spec (from the repository's fixtures and doc comments); harness and driver. serde glue is exercised, not proved. Bitfinex's "
+              "channel-id re-keying is driven by constructing the post-validation instrument map directly (same two statements as the validator's Subscribed "
+              "arm, on a really deserialised BitfinexPlatformEvent) - no loop-back websocket. Binance L2 only as a first update on a fresh transformer. "
+              "ASCII names only. Not constrained by the spec (reported): Gateio futures/perpetual/option sells carry a negative PublicTrade.amount while "
+              "every other connector reports the absolute quantity; batches that mix symbols are attributed wholly to the first trade's instrument.")
